@@ -833,6 +833,22 @@ def check_dir(case, rec):
         want = o if nd > 1 else (o_v[0], o_c[0])
         # the wrapper decides "separated" on its own unit vectors: allow for rounding
         _classify_dir(rec, case, "vario_estimate", res[1], res[2], want, o_alt, margin >= -1e-9, nd, tags)
+        # the same directions on a structured grid whose first axis repeats a coordinate (two tiles sharing a boundary column): the
+        # grid nodes given as a point list are the reference (the point-list path is compared with the enumeration above)
+        if dim in (2, 3) and (n + len(edges)) % 2 == 0:
+            gax = [np.array([0.0, 1.0, 2.0, 2.0, 3.0]), np.array([0.0, 0.5, 1.5]), np.array([0.0, 1.0])][:dim]
+            gpt = np.array(np.meshgrid(*gax, indexing="ij")).reshape(dim, -1)
+            gfl = np.cos(1.7 * gpt[0] + 0.3) + 0.5 * np.sin(2.1 * gpt[1] + 0.1 * gpt[-1] ** 2)
+            ged = [0.0, 0.75, 1.6, 2.4, 4.0]
+            with common.quiet():
+                rs_ = lib(gs.vario_estimate, [a.copy() for a in gax], gfl.reshape([a.size for a in gax]), ged, estimator=_spell(est, case), direction=arg_dirs,
+                          angles_tol=tol, bandwidth=bw, mesh_type="structured", return_counts=True, _tags=tags)
+                ru_ = lib(gs.vario_estimate, gpt.copy(), gfl.copy(), ged, estimator=_spell(est, case), direction=arg_dirs,
+                          angles_tol=tol, bandwidth=bw, return_counts=True, _tags=tags)
+            rec.label("structured_grid_with_repeated_coordinate")
+            require(np.array_equal(np.asarray(rs_[2]), np.asarray(ru_[2])) and bool(np.allclose(np.asarray(rs_[1], dtype=float), np.asarray(ru_[1], dtype=float), rtol=1e-12, atol=0, equal_nan=True)),
+                    f"structured grid with a repeated coordinate: counts {np.asarray(rs_[2]).tolist()} differ from the grid nodes given as a point list {np.asarray(ru_[2]).tolist()}",
+                    dict(tags, kind="mismatch", api="vario_estimate", mesh="structured"))
         # the same directions through the documented `angles` keyword: azimuth from +x counter-clockwise (and polar angle from +z in 3-D)
         if dim in (2, 3) and case.get("use_angles", True):
             if dim == 2:
